@@ -5,9 +5,9 @@ Abstract view: physical byte a = memory_array[a - beginning] of the *first* cont
 Representation invariant of every device (assumed before, proved after every operation):
 len(memory_array) == size == end - beginning.
 
-The controller list has a concrete length per unit (0..3 quick, 0..5 thorough; every element symbolic); the
-for-each loop body is identical for every element, the general case follows by induction on the list (not
-machine-checked: stated bound).
+Lists of any length: the for-each loop of get_memory_by_address is cut (lookup_loop_units), the accessors are verified
+against that contract over an opaque list (hub_any_unit).  Besides, units with a concrete list length (0..3 quick, 0..5
+thorough; every element symbolic, everything inlined) cross-check the cut and give replayable inputs.
 """
 try:
     import z3
@@ -21,8 +21,11 @@ from pyvc import sym, bytesmodel as BM
 from pyvc.sym import land, lor, lnot, ite, implies, cmp
 from .common import own_frame, ALSO_MEM
 
-ASSUMPTIONS = ['controller lists of length <= 3 (quick) / <= 5 (thorough), each controller fully symbolic; longer lists by '
-               'induction over the first-match loop (not machine-checked)',
+ASSUMPTIONS = ['two sets of units: (a) controller lists of ANY length - the for-each loop of get_memory_by_address is cut (head / step for an '
+               'arbitrary controller / tail), __getitem__ / __setitem__ use it through that contract over an opaque list; the induction over '
+               'the list position that joins head, step and tail is the usual meta-argument, its premises are machine-checked; (b) concrete '
+               'lists of length <= 3 (quick) / <= 5 (thorough) with every controller fully symbolic and everything inlined, as a cross-check '
+               'that also yields replayable inputs',
                'engine models of bytearray slicing / slice assignment (incl. clamping and resizing) and of struct.pack/unpack']
 
 
@@ -376,9 +379,293 @@ def from_list_unit():
                 meta={'function': '%s.MemoryControllerHub.from_memory_list' % H.__name__, 'also': ALSO_MEM})
 
 
+class AbstractControllerList:
+    """hub.memories of arbitrary length and contents: only get_memory_by_address (under its loop contract) may look at it"""
+    sym_class = list
+
+    def snap(self):
+        return None
+
+    def restore(self, s):
+        pass
+
+    def mergeable(self, snaps, ok):
+        return True
+
+    def merge(self, conds, snaps, mv):
+        pass
+
+    def sym_iter(self, eng):
+        raise sym.OutOfSubset('the controller list is iterated outside get_memory_by_address (the any-length units rely on its contract)')
+
+    def sym_getattr(self, eng, name):
+        raise sym.OutOfSubset('the controller list is used directly (.%s) outside get_memory_by_address' % name)
+
+
+def lookup_loop_units():
+    """get_memory_by_address for a controller list of ANY length, by cutting its for-each loop: head (the loop runs over
+    self.memories itself, front to back, nothing happened before), step (for an arbitrary controller: returned iff it contains the
+    address, otherwise passed over; nothing is modified), tail (falling off the end returns None).  By induction over the position
+    in the list: the result is the first controller, in list order, with beginning <= address < end, or None."""
+    m = registry.mods()
+    H = m.memory_controller_hub
+    HUB = H.MemoryControllerHub
+    fn = HUB.get_memory_by_address
+    from pyvc.interp import CutPoint, _Return
+    out = []
+
+    def setup(eng):
+        hub = eng.call(HUB, [])
+        lst = eng.register([])
+        hub.attrs['memories'] = lst
+        a = eng.fresh_int('address', 41)
+        if not eng.prefix:
+            eng.cover('state satisfiable')
+        return hub, lst, a
+
+    def head(eng):
+        hub, lst, a = setup(eng)
+        hub0 = dict(hub.attrs)
+
+        def hook(e, stmt, env, g):
+            raise CutPoint(dict(it=e.ev(stmt.iter, env, g), orelse=bool(stmt.orelse)), e)
+        eng.loop_hooks = {(fn, 0): hook}
+        try:
+            eng.call(fn, [hub, a])
+        except CutPoint as c:
+            c.reinstate(eng)
+            eng.oblige('inv.init', 'the lookup scans self.memories itself, front to back (registration order = priority)', c.payload['it'] is lst and not c.payload['orelse'])
+            eng.oblige('frame.hub', 'nothing is modified before the scan', all(hub.attrs.get(k_) is v_ for k_, v_ in hub0.items()) and len(hub.attrs) == len(hub0) and len(lst) == 0)
+            own_frame(eng, 'get_memory_by_address')
+            return
+        eng.oblige('inv.init', 'get_memory_by_address reaches its scan loop', False)
+
+    def step(eng):
+        hub, lst, a = setup(eng)
+        beg = eng.fresh_int('dev.beginning', 40)
+        end = eng.fresh_int('dev.end', 41)
+        ram = eng.new_obj(m.memory_types.RAM, {'size': 0, 'memory_array': None}, tag='ram')
+        mc = eng.new_obj(H.MemoryController, {'mem': ram, 'beginning': beg, 'end': end}, tag='mc')
+        mc0 = dict(mc.attrs)
+        hub0 = dict(hub.attrs)
+        inside = land(cmp('<=', beg, a), cmp('<', a, end))
+        res = {}
+
+        def hook(e, stmt, env, g):
+            e.assign(stmt.target, mc, env, g)
+            try:
+                e.block(stmt.body, env, g)
+            except _Return as r:
+                res['ret'] = r.v
+            raise CutPoint(dict(res), e)
+        eng.loop_hooks = {(fn, 0): hook}
+        try:
+            eng.call(fn, [hub, a])
+        except CutPoint as c:
+            c.reinstate(eng)
+            if 'ret' in c.payload:
+                eng.oblige('inv.step', 'a controller is returned only if beginning <= address < end, and it is the one just examined',
+                           land(inside, c.payload['ret'] is mc))
+            else:
+                eng.oblige('inv.step', 'a controller is passed over only if it does not contain the address', lnot(inside))
+            eng.oblige('frame.hub', 'examining a controller modifies neither it nor the hub',
+                       all(mc.attrs.get(k_) is v_ for k_, v_ in mc0.items()) and len(mc.attrs) == len(mc0) and
+                       all(hub.attrs.get(k_) is v_ for k_, v_ in hub0.items()) and len(hub.attrs) == len(hub0) and len(lst) == 0)
+            own_frame(eng, 'get_memory_by_address')
+            return
+        eng.oblige('inv.step', 'get_memory_by_address reaches its scan loop', False)
+
+    def tail(eng):
+        hub, lst, a = setup(eng)
+        eng.loop_hooks = {(fn, 0): (lambda e, stmt, env, g: True)}
+        try:
+            r = eng.call(fn, [hub, a])
+        except PyRaise as e:
+            eng.oblige('safe.host', 'get_memory_by_address raises %s after the scan' % e.exc.cls.__name__, False)
+            return
+        eng.oblige('post', 'no controller contains the address: the result is None', r is None)
+        own_frame(eng, 'get_memory_by_address')
+
+    def nreplay(inputs, ob):
+        # whole-function replay on a two-element list built from the model: [a device that does not contain the address, the model's device]
+        hub = HUB()
+        a, b, e = inputs.get('address', 0), inputs.get('dev.beginning', 0), inputs.get('dev.end', 0)
+        other = H.MemoryController(m.memory_types.RAM(0), a + 1, a + 1)
+        dev = H.MemoryController(m.memory_types.RAM(0), b, e)
+        hub.memories.extend([other, dev])
+        try:
+            r = hub.get_memory_by_address(a)
+        except Exception as ex:     # noqa
+            return True, 'get_memory_by_address(%s) raised %s: %s' % (hex(a), type(ex).__name__, ex)
+        want = dev if b <= a < e else None
+        return r is not want, 'controllers [%s,%s) [%s,%s) address %s: returned %s, expected %s' % (
+            hex(a + 1), hex(a + 1), hex(b), hex(e), hex(a), 'None' if r is None else '[%s,%s)' % (hex(r.beginning), hex(r.end)),
+            'None' if want is None else 'the second controller')
+    qn = '%s.MemoryControllerHub.get_memory_by_address' % H.__name__
+    for nm, th in (('head', head), ('step', step), ('tail', tail)):
+        out.append(Unit('C16/loop:get_memory_by_address/%s' % nm, ['C16', 'C13', 'C02', 'C03'], th, nreplay, {'contracts': {}, 'logic': 'QF_AUFBV'},
+                        meta={'function': qn, 'inductive': True, 'also': ALSO_MEM}))
+    return out
+
+
+def hub_any_unit(kind, size):
+    """__getitem__ / __setitem__ over a controller list of ANY length: the list itself is opaque, get_memory_by_address is used
+    through the contract proved by lookup_loop_units ("first controller containing the address, or None").  devA is, by
+    definition, the first controller that contains the accessed address (or there is none); a lookup of any other address may
+    return None, devA (if it contains that address) or one more arbitrary controller."""
+    m = registry.mods()
+    H = m.memory_controller_hub
+    HUB = H.MemoryControllerHub
+    fn = HUB.__getitem__ if kind == 'read' else HUB.__setitem__
+    uid = 'C16/hub.%s[any list,size=%d]' % (kind, size)
+
+    def mkdev(eng, tag):
+        beg = eng.fresh_int('%s.beginning' % tag, 40)
+        sz = eng.fresh_int('%s.size' % tag, 33)
+        ba = BM.ByteArr(eng, '%s.bytes' % tag, sz)
+        ram = eng.new_obj(m.memory_types.RAM, {'size': sz, 'memory_array': ba}, tag='ram' + tag)
+        mc = eng.new_obj(H.MemoryController, {'mem': ram, 'beginning': beg, 'end': sym.add(beg, sz)}, tag='mc' + tag)
+        return (beg, sz, ba, ram, mc)
+
+    def symbolic(eng):
+        BM.install()
+        hub = eng.call(HUB, [])
+        lst = AbstractControllerList()
+        eng.register(lst)
+        hub.attrs['memories'] = lst
+        hub0 = dict(hub.attrs)
+        a = eng.fresh_int('address', 40)
+        value = eng.fresh_int('value', 8 * size) if kind == 'write' else None
+        mapped = eng.fresh_bool('address_is_mapped')
+        devA = mkdev(eng, 'devA')
+        inA = lambda x: land(cmp('<=', devA[0], x), cmp('<', x, sym.add(devA[0], devA[1])))     # noqa
+        eng.assume(sym.implies(mapped, inA(a)))
+        eng.small_model_hints = [sym.zb(land(cmp('<=', devA[1], 4096), cmp('<=', devA[0], 1 << 20)))]
+        if not eng.prefix:
+            eng.cover('hub state satisfiable')
+        others = eng.register([])
+
+        def lookup(e, hub_, x):
+            if e.prove(sym.zb(values_eq(x, a))):
+                return devA[4] if e.istrue(mapped) else None
+            k = len(others)
+            if e.istrue(e.fresh_bool('lookup%d.none' % k)):
+                return None
+            if e.istrue(land(mapped, e.fresh_bool('lookup%d.devA' % k), inA(x))):
+                return devA[4]
+            d = mkdev(e, 'dev%d' % k)
+            others.append(d)
+            e.assume(land(cmp('<=', d[0], x), cmp('<', x, sym.add(d[0], d[1]))))
+            return d[4]
+        eng.contracts = {HUB.get_memory_by_address: Contract(HUB.get_memory_by_address, lookup, engine=True,
+                                                             note='proved by C16/loop:get_memory_by_address/{head,step,tail}')}
+        desc = make_desc(eng, a)
+        probe = z3.BitVec('probe_index', BM.AW)
+        eng.inputs['probe_index'] = probe
+        eng.all_inputs['probe_index'] = probe
+
+        def same(x, y):
+            return sym.SymBool(z3.Select(x, probe) == z3.Select(y, probe))
+        raised = None
+        r = None
+        try:
+            if kind == 'read':
+                r = eng.call(fn, [hub, (desc, size)])
+            else:
+                eng.call(fn, [hub, (desc, size), value])
+        except PyRaise as e:
+            raised = e.exc.cls
+        eng.oblige('safe.host', 'no host-level error for any controller list, any address, size %d (%s)' % (size, kind), raised is None,
+                   detail=getattr(raised, '__name__', ''))
+        own_frame(eng, 'hub %s' % kind)
+        if raised is not None:
+            return
+        eng.oblige('frame.hub', 'an access changes no field of the hub object itself (no hidden history)',
+                   all(hub.attrs.get(k_) is v_ for k_, v_ in hub0.items()) and len(hub.attrs) == len(hub0))
+        named = []
+        for i, (beg, sz, ba, ram, mc) in enumerate([devA] + list(others)):
+            named.append(('dev%d.len' % i, values_eq(ba.length, sz)))
+            named.append(('dev%d.size' % i, values_eq(ram.attrs['size'], sz)))
+            named.append(('dev%d.bounds' % i, land(values_eq(mc.attrs['beginning'], beg), values_eq(mc.attrs['end'], sym.add(beg, sz)))))
+        eng.oblige_all('inv.len', 'every device keeps len(memory_array) == size == end - beginning', named)
+        beg, sz, ba, ram, mc = devA
+        off = sym.sub(a, beg)
+        whole = land(mapped, cmp('<=', sym.add(a, size), sym.add(beg, sz)))
+        if kind == 'read':
+            eng.oblige('post', 'read inside the first controller that contains the address returns the little-endian value of its bytes',
+                       implies(whole, values_eq(r, le_value(ba.init_arr, off, size))))
+            eng.oblige('post', 'unmapped address, or an access that runs past the end of its device, reads as zero', implies(lnot(whole), values_eq(r, 0)))
+            eng.oblige('frame', 'a read leaves the addressed device untouched', same(ba.arr, ba.init_arr))
+        else:
+            exp = ba.init_arr
+            for j in range(size):
+                exp = z3.Store(exp, BM._idx(sym.add(off, j)), z3.Extract(7, 0, sym.fit(sym.lift(sym.shr(value, 8 * j)), 8 * size + 1)))
+            eng.oblige('post', 'write inside the first controller that contains the address stores exactly the addressed bytes, little-endian',
+                       implies(whole, same(ba.arr, exp)))
+            eng.oblige('frame', 'unmapped address, or an access that runs past the end of its device: the write is ignored', implies(lnot(whole), same(ba.arr, ba.init_arr)))
+        for i, d in enumerate(others):
+            eng.oblige('frame', 'a controller that merely came up in another lookup is untouched', same(d[2].arr, d[2].init_arr))
+
+    def replay(inputs, ob):
+        # concrete list: [devA] if mapped else [], followed by the other devices of the model
+        Hn = registry.mods().memory_controller_hub
+        hub = Hn.MemoryControllerHub()
+        devs = []
+        names = (['devA'] if inputs.get('address_is_mapped') else []) + sorted(set(k_.split('.')[0] for k_ in inputs if k_.startswith('dev') and not k_.startswith('devA')))
+        for nm in names:
+            beg, sz = inputs.get(nm + '.beginning', 0), inputs.get(nm + '.size', 0)
+            if sz > 1 << 20:
+                return False, 'counterexample needs a device of %d bytes; not replayed natively' % sz
+            ram = registry.mods().memory_types.RAM(sz)
+            ram.memory_array[:] = bytes(((j * 37 + 11) & 0xFF) for j in range(sz))
+            hub.memories.append(Hn.MemoryController(ram, beg, beg + sz))
+            devs.append((beg, sz, ram))
+        a = inputs.get('address', 0)
+        d = registry.mods().address_descriptor.AddressDescriptor()
+        d.paddress.physicaladdress = a
+        before = [bytes(r_.memory_array) for _, _, r_ in devs]
+        lines = ['devices %s address %s size %d' % ([(hex(b), s_) for b, s_, _ in devs], hex(a), size)]
+        exc = r = None
+        try:
+            if kind == 'read':
+                r = hub[d, size]
+            else:
+                hub[d, size] = inputs.get('value', 0)
+        except Exception as e:     # noqa
+            exc = e
+        lines.append('outcome: %s' % ('returned %r' % (r,) if exc is None else '%s: %s' % (type(exc).__name__, exc)))
+        bad = exc is not None
+        for i, (b, s_, ram) in enumerate(devs):
+            if len(ram.memory_array) != s_:
+                lines.append('device %d changed size: %d -> %d' % (i, s_, len(ram.memory_array)))
+                bad = True
+        first = next((i for i, (b, s_, _) in enumerate(devs) if b <= a < b + s_), None)
+        if not bad:
+            inwhole = first is not None and a + size <= devs[first][0] + devs[first][1]
+            if kind == 'read':
+                exp = int.from_bytes(before[first][a - devs[first][0]:a - devs[first][0] + size], 'little') if inwhole else 0
+                lines.append('expected %s' % hex(exp))
+                bad = r != exp
+            for i, (b, s_, ram) in enumerate(devs):
+                expb = bytearray(before[i])
+                if kind == 'write' and inwhole and i == first:
+                    expb[a - b:a - b + size] = (inputs.get('value', 0) & ((1 << (8 * size)) - 1)).to_bytes(size, 'little')
+                if bytes(ram.memory_array) != bytes(expb):
+                    lines.append('device %d contents differ from the expected contents' % i)
+                    bad = True
+        return bad, '\n'.join(lines)
+
+    return Unit(uid, ['C16', 'C13', 'C02', 'C03'], symbolic, replay, {'contracts': {}, 'logic': 'QF_AUFBV'},
+                meta={'function': '%s.%s' % (fn.__module__, fn.__qualname__), 'also': ALSO_MEM, 'inductive': True})
+
+
 def units(tier):
     out = conv_units()
     out.append(from_list_unit())
+    out += lookup_loop_units()
+    for size in (1, 2, 4, 8):
+        out.append(hub_any_unit('read', size))
+        out.append(hub_any_unit('write', size))
     ks = range(0, 6) if tier == 'thorough' else range(0, 4)
     for k in ks:
         for size in (1, 2, 4, 8):
